@@ -330,3 +330,4 @@ def run(chk):
     c09.rule_model(chk, prefix="C06")   # the remote sub-tree is attached by (task_uuid, task_level) alone
     c09.rule_add_dispatch(chk)
     c09.rule_upward(chk)
+    common.rule_forwarding(chk, "C06", keys=[("_action", "Action.continue_task"), ("_action", "Action.child"), ("_action", "Action.__init__")])
